@@ -157,6 +157,16 @@ def full_SH():
     ]
 
 
+def core_MA():
+    """volumes as numpy.ma masked arrays, then steps that depend on what was tracked for the masked entries"""
+    return [
+        D("Q", ["A01", "B01"], {"$ma": [[30, 30], [False, True]]}),
+        A("Q", ["B01"], [25]),
+        A("P", ["A01", "B01"], {"$ma": [[45, 45], [True, False]]}),
+        A("P", ["A01"], [25]),
+    ]
+
+
 def core_MV():
     return [
         ["set_attr", "w", "max_volume", 20],
@@ -238,6 +248,7 @@ class Harness(cm.BaseA):
             # wl.max_volume re-assigned on the live worklist
             for asplit in (True, False):
                 out.append({"set": "MV", "labware": cm.W1(), "worklists": {"w": {"cls": cls, "max_volume": 50, "auto_split": asplit}}})
+            out.append({"set": "MA", "labware": cm.W1(), "worklists": {"w": {"cls": cls, "max_volume": 50, "auto_split": True}}})
         return out
 
     def _robot(self, config):
@@ -260,6 +271,8 @@ class Harness(cm.BaseA):
             return core_SH()
         if config["set"] == "MV":
             return core_MV()
+        if config["set"] == "MA":
+            return core_MA()
         return c01.SETS[config["set"]][1]()
 
     def full_events(self, W, config):
@@ -269,6 +282,8 @@ class Harness(cm.BaseA):
             return full_SH()
         if config["set"] == "MV":
             return full_MV()
+        if config["set"] == "MA":
+            return core_MA() + c01.masked_events() + [A("P", ["A01"], [50]), A("P", ["A01", "A01"], [45, 45]), A("Q", ["A01", "B01"], [30, 30])]
         ev = list(c01.SETS[config["set"]][2]("quick"))
         ev += failing_W1() if config["set"] == "W1" else failing_W3()
         if config["worklists"]["w"]["cls"] == "EvoWorklist":
@@ -281,6 +296,8 @@ class Harness(cm.BaseA):
 
     def step(self, W, ev, config):
         wl = W["wl"]["w"]
+        if not W["path"]:
+            cm.other_device_looks(W, config["worklists"]["w"]["cls"])
         pre = self.canon(W, config)
         out, exc = exec_event(W, ev)
         recs = list(wl)
